@@ -270,6 +270,7 @@ def run_long(rec, tier, seed):
     qlens = [12, 8, 30, 28, 3]
     Qs = [pat(L, k) for k, L in enumerate(qlens)]
     Ts = [pat(L, k + 3) for k, L in enumerate([5, 12, 30, 20, 9, 28])] + [Qs[2], Qs[0]]
+    Ts = Ts + [pat(1 + (k * 7) % 11, k) for k in range(300)]          # more than 255 targets, thousands of pooled columns
     alone = [torch.stack(list(TT.tomtom([Q], Ts, n_jobs=1))).numpy()[:, 0] for Q in Qs]
     for rc in (True, False):
         if not rc:
